@@ -75,6 +75,10 @@ def gen_case(rng):
     while t < horizon and len(prows) < 12:
         charger = rng.choice(['DCFC', 'LEVEL_2'])
         price = rng.choice([0.1, 0.25, 0.4, 0.05])
+        # a tariff may go (back) to exactly zero — free charging — or below.  Own stream.
+        rz = random.Random(f'zero-price|{t}|{price}|{len(prows)}')
+        if rz.random() < 0.2:
+            price = rz.choice([0.0, 0.0, -0.05])
         if mode == 'station_id':
             key = ('station_id', rng.choice([s.id for s in stations] + (['s9'] if rng.random() < 0.2 else [])))
         else:
